@@ -9,6 +9,7 @@ mod c08;
 mod c14;
 mod c05;
 mod c11;
+mod c10;
 mod animgen;
 mod webpfile;
 mod oracle;
@@ -77,6 +78,7 @@ fn main() {
         "C14" => c14::run(&o),
         "C05" => c05::run(&o),
         "C11" => c11::run(&o),
+        "C10" => c10::run(&o),
         _ => {
             eprintln!("unknown property {prop}");
             std::process::exit(2);
